@@ -39,7 +39,7 @@ let () =
            let zargs = (match kind with
              | `Hex -> List.map z_of_hex args
              | `Str -> (match args with [] -> [] | s :: _ -> bytes_of_hex s)) in
-           let e = (match ta with Some k -> expected_ta (Zhex.z_of_int k) md zargs | None -> expected o md zargs) in
+           let e = (match ta with Some k -> expected_ta_kf (Zhex.z_of_int k) md zargs | None -> expected o md zargs) in
            (match rhs with
             | "PANIC" :: _ ->
               incr pan; Printf.printf "PANIC %d %s || expected: %s\n" !lineno line (show_expect e)
